@@ -392,3 +392,82 @@ pub fn c10(rep: &mut Rep, seed: u64) {
         if rep.samples.len() < 3 { rep.samples.push(json!({"components": base})); }
     }
 }
+
+// ------------------------------------------------------------------------------------------------ C16
+/// bounded no-panic check of the library on valid files, systematic token-level corruptions of them and special shapes:
+/// parse -> prepare factors -> strip -> energy_performance (both modes) -> DHW renewable fraction
+pub fn c16(rep: &mut Rep, seed: u64) {
+    use std::panic;
+    let mut rng = Rng(seed ^ 0x16);
+    let prev = panic::take_hook();
+    panic::set_hook(Box::new(|_| {}));
+    let mut corpus: Vec<String> = vec![];
+    if let Ok(rd) = std::fs::read_dir("/repo/test_data") {
+        let mut names: Vec<_> = rd.filter_map(|e| e.ok()).map(|e| e.path()).filter(|p| p.extension().map(|x| x == "csv").unwrap_or(false)).collect();
+        names.sort();
+        for p in names { if let Ok(s) = std::fs::read_to_string(&p) { if !p.to_string_lossy().contains("factores") { corpus.push(s); } } }
+    }
+    for t in crate::gen::extras() { corpus.push(t.to_string()); }
+    let specials = [
+        // auxiliary energy of a system without any consumption, with and without outputs
+        "1,CONSUMO,CAL,GASNATURAL,100\n2,AUX,5", "2,AUX,0\n1,CONSUMO,CAL,GASNATURAL,100", "1,PRODUCCION,EL_INSITU,10\n1,AUX,3", "3,SALIDA,CAL,30\n3,SALIDA,ACS,10\n3,AUX,4",
+        // DHW demand with biomass + gas, PV of the same system before / without the output line
+        "DEMANDA,ACS,100\n1,PRODUCCION,EL_INSITU,10\n1,CONSUMO,ACS,BIOMASA,80\n1,CONSUMO,ACS,GASNATURAL,40\n1,SALIDA,ACS,100",
+        "DEMANDA,ACS,100\n1,CONSUMO,ACS,BIOMASA,80\n1,CONSUMO,ACS,GASNATURAL,40\n1,CONSUMO,ACS,TERMOSOLAR,10",
+        "DEMANDA,ACS,100\n1,CONSUMO,ACS,BIOMASA,80\n1,CONSUMO,ACS,GASNATURAL,40\n1,CONSUMO,ACS,EAMBIENTE,10\n2,SALIDA,ACS,20",
+        "DEMANDA,ACS,0\n1,CONSUMO,ACS,ELECTRICIDAD,10", "DEMANDA,ACS,50,50\nDEMANDA,ACS,1\n1,CONSUMO,ACS,GASNATURAL,1,1", "DEMANDA,VEN,5\n1,CONSUMO,ACS,GASNATURAL,1",
+        // only outputs / only production / empty / different lengths / odd numbers
+        "1,SALIDA,CAL,30", "1,PRODUCCION,EL_COGEN,10", "", "#META CTE_AREAREF: x", "1,CONSUMO,CAL,GASNATURAL,1,2\n1,CONSUMO,ACS,GASNATURAL,1", "1,CONSUMO,CAL,GASNATURAL,NaN,inf,-1e40,1e39",
+        "CONSUMO,CAL", ",,,,", "1,CONSUMO,CAL,GASNATURAL", "ñ,CONSUMO,CAL,GASNATURAL,1", "1,CONSUMO,CAL,ELECTRICIDAD,1 # com # ment\n\u{feff}",
+    ];
+    for s in specials { corpus.push(s.to_string()); }
+    // systematic corruptions of the valid files: drop / duplicate / replace one token or one line
+    let base: Vec<String> = corpus.iter().take(20).cloned().collect();
+    let repl = ["", "AUX", "SALIDA", "COGEN", "NEPB", "EL_COGEN", "-1", "x", "1e40", "NaN", "0"];
+    for t in &base {
+        let lines: Vec<&str> = t.lines().filter(|l| !l.trim().is_empty()).collect();
+        if lines.is_empty() { continue; }
+        for _ in 0..60 {
+            let mut l: Vec<String> = lines.iter().map(|s| s.to_string()).collect();
+            let i = (rng.next() % l.len() as u64) as usize;
+            match rng.next() % 6 {
+                0 => { l.remove(i); }
+                1 => { let x = l[i].clone(); l.insert(i, x); }
+                2 => { let j = (rng.next() % l.len() as u64) as usize; l.swap(i, j); }
+                _ => {
+                    let mut toks: Vec<String> = l[i].split(',').map(|s| s.to_string()).collect();
+                    let j = (rng.next() % toks.len() as u64) as usize;
+                    match rng.next() % 3 { 0 => { toks.remove(j); } 1 => { let x = toks[j].clone(); toks.insert(j, x); } _ => { toks[j] = rng.pick(&repl).to_string(); } }
+                    l[i] = toks.join(",");
+                }
+            }
+            corpus.push(l.join("\n"));
+        }
+    }
+    for text in &corpus {
+        rep.evals += 1;
+        let t2 = text.clone();
+        let r = panic::catch_unwind(move || {
+            let comps: Components = match t2.parse() { Ok(c) => c, Err(_) => return 0 };
+            let w = crate::factors("PENINSULA");
+            let ws = w.clone().strip(&comps);
+            let mut n = 1;
+            for (wf, k, lm) in [(&w, 0.0f32, false), (&ws, 0.7, true)] {
+                if let Ok(ep) = energy_performance(&comps, wf, k, 1.0, lm) {
+                    let _ = cte::incorpora_demanda_renovable_acs_nrb(ep);
+                    n += 1;
+                }
+            }
+            n
+        });
+        match r {
+            Ok(n) => if n > 1 { rep.nontrivial += 1; },
+            Err(e) => {
+                let msg = e.downcast_ref::<String>().cloned().or_else(|| e.downcast_ref::<&str>().map(|s| s.to_string())).unwrap_or_else(|| "panic".into());
+                rep.fail("C16.no_panic", text, format!("the library panicked: {}", msg));
+            }
+        }
+        if rep.evals % 301 == 2 && rep.samples.len() < 4 { rep.samples.push(json!({"components": text})); }
+    }
+    panic::set_hook(prev);
+}
